@@ -5,10 +5,16 @@ CONSTANTS
   Vals = {1, 2}
   MaxDepth = 3
   NR = 1
+  NT = 1
+  Writers = {1}
+  RdThreads = {1}
   MapInit = 10
+  UsedInit = 0
   Chunk = 10
   PutCost = 0
   TxnBeforeGate = FALSE
+  NestedCloseClearsMark = FALSE
+  ReadNotCounted = FALSE
   BatchMax = 1
   MaxOps = 4
   WithReads = FALSE
